@@ -77,7 +77,7 @@ def bpms(r):
 
 def plan(tier, seed):
     K = 4 if tier == "quick" else 5
-    shards = [(r, i, K) for r in RES for i in range(5)] + [("subus", r) for r in (192, 960, 480)] + [("long", r) for r in RES] + [("far", r) for r in (1, 192)]
+    shards = [(r, i, K) for r in RES for i in range(5)] + [("subus", r) for r in (192, 960, 480)] + [("long", r) for r in RES] + [("far", r) for r in (1, 192)] + [("unsorted", r) for r in RES]
     return dict(shards=shards, bounds=dict(resolutions=list(RES), segments=K, gaps=list(GAPS), bpm_thousandths={str(r): list(bpms(r)) for r in RES}), budget_s=900 if tier == "thorough" else 300)
 
 
@@ -99,6 +99,8 @@ def run_shard(shard, ctx):
         return _subus(ctx, shard[1])
     if shard[0] == "far":
         return _far(ctx, shard[1])
+    if shard[0] == "unsorted":
+        return _unsorted(ctx, shard[1])
     if shard[0] == "long":
         r = shard[1]
         B = bpms(r)
@@ -199,6 +201,36 @@ def _far(ctx, r):
                     ctx.hist["undecided(parse or query raises; owned by C01/C08/C15)"] += 1
                 elif got != "monotone":
                     e1.report(ctx, "monotone", text, srcp, ["monotone"], got, "resolution %d tempo map %r (tempo changes %d ticks into the song)" % (r, [list(x) for x in tempo], T), extra_case=dict(far=[strict, T]))
+
+
+def _unsorted(ctx, r):
+    """Charts whose body lines are not in tick order but which the parser accepts (no line steps back across
+    a tempo change): the times of their events are still a monotone function of the tick."""
+    import itertools as it
+
+    B = bpms(r)
+    for n0, n1, n2 in it.product(B[1:], repeat=3):
+        tempo = [(0, n0), (10, n1), (20, n2)]
+        for perm in ((1, 0, 2), (2, 1, 0), (0, 2, 1)):
+            seg = [[0, 3, 7, 9], [10, 12, 15, 19], [20, 21, 26, 40]]
+            order = []
+            for sg in seg:  # shuffle INSIDE each tempo region only, keep the regions in order
+                order += [sg[perm[0]], sg[3], sg[perm[1]], sg[perm[2]]]
+            sync = ["%d = B %d" % tn for tn in tempo] + ["0 = TS 4"] + ["%d = TS 3" % t for t in order if t]
+            ev = ['%d = E "x"' % t for t in order]
+            a = ["%d = N %d %d" % (t, t % 5, 1 + t % 3) for t in order]
+            b = ["%d = S 2 2" % t for t in order] + ["%d = E e" % t for t in order]
+            text = mk(res=r, sync=sync, events=ev, tracks=[("ExpertSingle", a), ("HardDrums", b)])
+            strict = all(n * r <= 3 * 10**10 for _, n in tempo)
+            srcp = "STRICT = %r\nFIRST_CHANGE = 0\n" % strict + FAR_SRC.strip("\n")
+            got = e1.run_probe(e1.compile_probe(srcp), text)
+            ctx.case((r, tuple(tempo), perm), sample=lambda: dict(resolution=r, tempo=[list(x) for x in tempo], file_order=order))
+            ctx.evaluations += 3 * len(order)
+            ctx.hist["unsorted_accepted" if got == "monotone" else "unsorted_other"] += 1
+            if isinstance(got, list) and got[:1] == ["raises"]:
+                ctx.hist["undecided(parse or query raises; owned by C01/C08/C15)"] += 1
+            elif got != "monotone":
+                e1.report(ctx, "monotone", text, srcp, ["monotone"], got, "resolution %d tempo map %r, lines in file order %r" % (r, [list(x) for x in tempo], order), extra_case=dict(far=[strict, 0]))
 
 
 def _subus(ctx, r):
